@@ -1,21 +1,20 @@
-SPECIFICATION GSpec
-INVARIANT Emit
+SPECIFICATION MCSpec
 INVARIANT ObjectsAreFunctionsOfInput
 INVARIANT GlobalsUntouched
 INVARIANT ResultsDependOnInputOnly
 INVARIANT AccessorResultsAreFunctionsOfTheObject
+PROPERTY AccessorsArePure
 CONSTANTS
-  Threads = {t1}
-  Inputs = {}
-  MaxObjs = 1
-  MaxCalls = 3
-  Mode = "accessors"
+  Threads = {t1, t2}
+  Inputs <- InputsDef
+  MaxObjs = 2
+  MaxCalls = 4
   BugSharedScratch = FALSE
   BugCache = FALSE
   BugAccessorMutates = FALSE
   BugJsonAlias = FALSE
   BugEntryPointWritesTables = FALSE
   BugCopyDiffers = FALSE
-  BugMemoPublishedEarly = FALSE
+  BugMemoPublishedEarly = TRUE
   BugCacheIgnoresContext = FALSE
 CHECK_DEADLOCK FALSE
